@@ -321,7 +321,18 @@ def verify_contract(repo, c, variant, policy=None, path_timeout_ms=2000, max_pat
             stats.setdefault("limits", []).append(str(lim))
             emit_heap_frames(c, I, S, ctx, tagsof)
             return "limit"
+        except PathEnd:
+            raise
         except PyExc as e:
+            pass_exc = e
+        except Exception as e:      # noqa - an engine-internal error while executing the code under test: the construct
+            # is not modelled (on the unchanged tree no task raises one; all 20 baselines are recorded without)
+            stats.setdefault("limits", []).append(f"engine error {type(e).__name__}: {str(e)[:120]}")
+            return "limit"
+        else:
+            pass_exc = None
+        if pass_exc is not None:
+            e = pass_exc
             for kind_, q in I.call_log:
                 stats["calls"].add((kind_, q))
             ok = c.allowed_exception(I, S, e)
